@@ -329,5 +329,4 @@ func VerifC11_emptyrow() {
 	if vfChoice("late", 2) == 1 {
 		vfAssert(count(late) == 1, "direct-row-error-reported-once")
 	}
-	vfAssert(r.Errors() == nil || len(r.Errors()) == len(got), "row-reports-through-the-table")
 }
